@@ -108,7 +108,7 @@ void h_try_push(void) { SETUP; ELEM* in; try_push(r, in); BT_CANARY(); }
     dict(name='try_pop',
          extracts=dict(EX, pop=dict(file=RING, locate=T + r'bool ring< S, T >::try_pop\( T& out \)', rules=ATOMIC_RULES),
                        ctor=dict(file=RING, locate=T + r'ring< S, T >::ring\(\)', init_list=True,
-                                 rules=[(r'static_assert\([^;]*;', '', 1)])),
+                                 rules=[(r'BT_STATIC_ASSERT\( ATOMIC_INT_LOCK_FREE,[^;]*;', '', 1)])),
          code=HEAD + CONSUMER_SIDE + STEPS + r'''
 bool try_pop(struct ring* self, ELEM* out)
 __CPROVER_requires(S_OK && RING_OK(self) && __CPROVER_is_fresh(out, sizeof(ELEM)) && CNT(self->read_ptr_, self->write_ptr_) <= (int)G_S)
